@@ -399,6 +399,49 @@ func runC05(e *sim.Env) {
 		}
 	}
 
+	// an upper bound of the weight the pool can have reached since the last
+	// step: what it held then, plus everything accepted or put back by a revert
+	// since. Eviction needs the pool to have reached its limit.
+	var prevW, sinceW uint64
+	heavyMade, heavyRamp := 0, e.Range(8, 11)
+
+	// rejectHeavy submits, in a run with heavy transactions, a set whose first
+	// transaction is heavy and fine and whose second one double-spends a pooled
+	// input: rejected as a whole, and the pool is no heavier for it.
+	rejectHeavy := func() {
+		before := snapPool(e, "C05", s.cm)
+		if len(before.v2) == 0 || tip.Height+1 < net.Allow() {
+			return
+		}
+		tb := gen.NewTxBuilder(e, tip.L)
+		tb.OrderSafe, tb.UsedEnds, tb.Strict = true, tree.UsedEnds, genStrict
+		tb.Adopt(before.v1, before.v2)
+		n2 := len(tb.V2Txns)
+		var txn types.V2Transaction
+		txn.ArbitraryData = make([]byte, 1_800_000)
+		copy(txn.ArbitraryData, e.Bytes(8))
+		txn.MinerFee = types.Siacoins(uint32(e.Range(1, 50)))
+		if !tb.FundV2(&txn, txn.MinerFee) {
+			return
+		}
+		tb.SignV2(&txn)
+		if !tb.CommitV2("v2big", txn) {
+			return
+		}
+		c, ok := conflictV2(tb, before.v2[e.Intn(len(before.v2))])
+		if !ok {
+			return
+		}
+		set := []types.V2Transaction{tb.V2Txns[n2].DeepCopy(), c}
+		var err error
+		e.Guard("C05.panic", "AddV2PoolTransactions", func() { _, err = s.cm.AddV2PoolTransactions(tip.Index(), set) })
+		e.Logf("pool submit heavy + conflicting -> err=%v", err)
+		if err == nil {
+			e.Violationf("C05.invalid-rejected", "conflict-accepted", "a set whose second transaction double-spends a pooled input was accepted")
+		}
+		e.Fault("heavy-set-rejected")
+	}
+
 	submit := func() {
 		// a set valid at the tip or at a stale basis
 		basisNode := tip
@@ -436,14 +479,20 @@ func runC05(e *sim.Env) {
 			tb.Draw(mix)
 		}
 		if bigMode && useV2 && !stale {
-			// a heavy transaction: ~0.9 of a block of arbitrary data, drawn fee
-			var txn types.V2Transaction
-			txn.ArbitraryData = make([]byte, 1_800_000)
-			copy(txn.ArbitraryData, e.Bytes(8))
-			txn.MinerFee = types.Siacoins(uint32(e.Range(1, 50)))
-			if tb.FundV2(&txn, txn.MinerFee) {
-				tb.SignV2(&txn)
-				tb.CommitV2("v2big", txn)
+			// heavy transactions: ~0.9 of a block of arbitrary data each, drawn
+			// fees; several at a time until the pool is close to its limit of
+			// ten blocks
+			for k, n := 0, e.Range(1, 3); k < n && (k == 0 || heavyMade < heavyRamp); k++ {
+				var txn types.V2Transaction
+				txn.ArbitraryData = make([]byte, 1_800_000)
+				copy(txn.ArbitraryData, e.Bytes(8))
+				txn.MinerFee = types.Siacoins(uint32(e.Range(1, 50)))
+				if tb.FundV2(&txn, txn.MinerFee) {
+					tb.SignV2(&txn)
+					if tb.CommitV2("v2big", txn) {
+						heavyMade++
+					}
+				}
 			}
 		}
 		var known bool
@@ -468,6 +517,7 @@ func runC05(e *sim.Env) {
 					ids = append(ids, id)
 					cp := fresh[i].DeepCopy()
 					tracked[id] = &trackedTxn{v2: &cp, inputs: inputsOfV2(cp)}
+					sinceW += tip.L.State.V2TransactionWeight(cp)
 				}
 			}
 		} else {
@@ -482,6 +532,7 @@ func runC05(e *sim.Env) {
 					ids = append(ids, id)
 					cp := set[i]
 					tracked[id] = &trackedTxn{v1: &cp, inputs: inputsOfV1(cp)}
+					sinceW += tip.L.State.TransactionWeight(cp)
 				}
 			}
 		}
@@ -531,11 +582,12 @@ func runC05(e *sim.Env) {
 				}
 			}
 		}
-		if tw >= tip.L.State.MaxBlockWeight()*10*3/4 {
+		if tw >= tip.L.State.MaxBlockWeight()*10*3/4 && prevW+sinceW >= tip.L.State.MaxBlockWeight()*10 {
 			over = true
 		}
 		retention(p, ms, over)
 		see(p)
+		prevW, sinceW = w, 0
 		if w >= tip.L.State.MaxBlockWeight()*5 {
 			e.Probe("pool_heavy")
 		}
@@ -548,6 +600,10 @@ func runC05(e *sim.Env) {
 		for i, n := 0, e.Range(0, 3); i < n; i++ {
 			submit()
 			step("after submit")
+			if bigMode && e.Chance(1, 2) {
+				rejectHeavy()
+				step("after a rejected heavy set")
+			}
 		}
 		var err error
 		e.Guard("C05.panic", "AddBlocks", func() { err = s.cm.AddBlocks(blocksOf(batch)) })
@@ -562,6 +618,18 @@ func runC05(e *sim.Env) {
 			}
 		}
 		e.Logf("AddBlocks(%d, last %s) -> err=%v tip %s", len(batch), batch[len(batch)-1].Describe(), err != nil, newTip.Describe())
+		if newTip != tip {
+			// reverted blocks give their transactions back to the pool
+			fork := gen.CommonAncestor(tip, newTip)
+			for n := tip; n != fork && n != nil; n = n.Parent {
+				for _, t := range n.Block.Transactions {
+					sinceW += tip.L.State.TransactionWeight(t)
+				}
+				for _, t := range n.Block.V2Transactions() {
+					sinceW += tip.L.State.V2TransactionWeight(t)
+				}
+			}
+		}
 		tip = newTip
 		step("after AddBlocks")
 
@@ -657,7 +725,7 @@ func prevTip(log []types.ChainIndex, i int, tree *gen.Tree) types.ChainIndex {
 func init() {
 	register(&Prop{
 		ID: "C05", Run: runC05, Quick: 700, Thorough: 20000, Level: "exploration",
-		Rule:        "one run = C02-style history interleaved with pool submissions drawn from the reference ledger at the tip or at a stale basis (ancestor or other branch): valid v1/v2 sets with parent/child chains over ephemeral outputs, contract formation/revision/resolution, 1 run in 12 with ~0.9-block-weight transactions to reach eviction; after every submission, every AddBlocks call, every block that confirms a drawn prefix of the reported pool and every coreutils.MineBlock: the reported pool (v1 then v2) validates prefix by prefix on a fresh mid-state of the tip with ledger supplements and ledger proofs, a block assembled from it is valid, mined blocks are accepted by the node and a linear twin, and every previously accepted transaction that disappeared has a cause the statement allows (confirmed, an input spent (or a contract revised / resolved) by a block applied since it was last seen, or created by a block reverted since then, no longer valid on top of tip+pool, pool over its weight limit); distinct = abstract trace; non-trivial = a reorg reverting blocks under a non-empty history",
+		Rule:        "one run = C02-style history interleaved with pool submissions drawn from the reference ledger at the tip or at a stale basis (ancestor or other branch): valid v1/v2 sets with parent/child chains over ephemeral outputs, contract formation/revision/resolution, 1 run in 12 with ~0.9-block-weight transactions to reach eviction (and sets of such a transaction plus one that double-spends a pooled input: rejected, and the pool no heavier for it); after every submission, every AddBlocks call, every block that confirms a drawn prefix of the reported pool and every coreutils.MineBlock: the reported pool (v1 then v2) validates prefix by prefix on a fresh mid-state of the tip with ledger supplements and ledger proofs, a block assembled from it is valid, mined blocks are accepted by the node and a linear twin, and every previously accepted transaction that disappeared has a cause the statement allows (confirmed, an input spent (or a contract revised / resolved) by a block applied since it was last seen, or created by a block reverted since then, no longer valid on top of tip+pool, pool over its weight limit - which requires that what the pool held at the previous look plus everything accepted or put back by reverts since reaches the limit); distinct = abstract trace; non-trivial = a reorg reverting blocks under a non-empty history",
 		Real:        []string{"chain.Manager (pool, reorg pool updates)", "chain.DBStore", "coreutils.MineBlock"},
 		Stub:        []string{"disk: simdisk.DB"},
 		Assumptions: []string{"retention is checked one-sidedly: a disappearance is flagged only when none of the allowed causes applies", "eviction order under a full pool is not checked, only that eviction happens solely when the pool is near its limit"},
